@@ -150,7 +150,14 @@ fn child() {
         bulk_partial: bulk_partial.clone(),
     };
     let lossy = sc["lossy"].as_bool().unwrap();
-    let (nb, guard) = NonBlockingBuilder::default().buffered_lines_limit(sc["k"].as_u64().unwrap() as usize).lossy(lossy).finish(under);
+    // the other constructors use the defaults (lossy, 128 000 lines): NonBlocking::new and tracing_appender::non_blocking
+    let (nb, guard) = match sc["ctor"].as_str().unwrap_or("builder") {
+        "new" => tracing_appender::non_blocking::NonBlocking::new(under),
+        "fn" => tracing_appender::non_blocking(under),
+        _ => NonBlockingBuilder::default().buffered_lines_limit(sc["k"].as_u64().unwrap() as usize).lossy(lossy).finish(under),
+    };
+    let via_make_writer = sc["make_writer"].as_bool().unwrap_or(false);
+    let use_write_all = sc["write_all"].as_bool().unwrap_or(false);
     let counter = nb.error_counter();
     let nprod = sc["producers"].as_u64().unwrap();
     let mut txs: Vec<Sender<u64>> = vec![];
@@ -161,7 +168,8 @@ fn child() {
     for p in 1..=nprod {
         let (tx, rx) = channel::<u64>();
         txs.push(tx);
-        let mut w = nb.clone();
+        // a producer's handle: a clone, or what the MakeWriter impl hands out
+        let mut w = if via_make_writer { tracing_subscriber::fmt::MakeWriter::make_writer(&nb) } else { nb.clone() };
         let (log, done) = (log.clone(), done.clone());
         hs.push(std::thread::spawn(move || {
             let mut i = 0u64;
@@ -175,8 +183,8 @@ fn child() {
                         continue;
                     }
                     log.push(json!({"ev": "write.start", "p": p, "i": i}));
-                    let r = w.write(line.as_bytes());
-                    log.push(json!({"ev": "write.end", "p": p, "i": i, "ok": matches!(r, Ok(n) if n == line.len())}));
+                    let ok = if use_write_all { w.write_all(line.as_bytes()).is_ok() } else { matches!(w.write(line.as_bytes()), Ok(n) if n == line.len()) };
+                    log.push(json!({"ev": "write.end", "p": p, "i": i, "ok": ok}));
                     done.fetch_add(1, Ordering::SeqCst);
                 }
             }
